@@ -16,7 +16,7 @@ RULE = ('(seq) random trees of nested config_scope entries (identifier, a/b, lis
 TIERS = {
     'quick': {'workers': 8, 'cases': 400, 'timeout': 900, 'thread_cases': 6, 'random_runs': 20, 'pct_runs': 9, 'preempt_samples': 40,
               'free_runs': 5, 'exhaustive': False},
-    'thorough': {'workers': 16, 'cases': 8000, 'timeout': 3400, 'thread_cases': 2, 'random_runs': 90, 'pct_runs': 45,
+    'thorough': {'workers': 16, 'cases': 8000, 'timeout': 3400, 'thread_cases': 1, 'random_runs': 90, 'pct_runs': 45,
                  'preempt_samples': 0, 'free_runs': 25, 'exhaustive': True},
 }
 REQUIRED_BUCKETS = ['entry:ident', 'entry:slash', 'entry:list', 'entry:none', 'entry:empty', 'entry:invalid-name', 'entry:invalid-type',
